@@ -173,6 +173,8 @@ class World:
 
     def __init__(self, kind, rec):
         self.kind = kind
+        self.rec = rec
+        rec.enabled = False
         if kind == "native":
             self.root = tempfile.mkdtemp(prefix="vmon-c05-")
             self.fs = fsmon.make_native(rec)
@@ -181,19 +183,28 @@ class World:
             self.root = "/song"
             self.fs = fsmon.make_memory(rec)
             self.fs.makedirs("/song/sub")
+        rec.enabled = True
 
     def path(self, name):
         return os.path.join(self.root, name) if self.kind == "native" else self.root + "/" + name
 
     def write(self, name, data):
-        if self.kind == "native":
-            with open(self.path(name), "wb") as f:
-                f.write(data)
-        else:
-            self.fs.writebytes(self.path(name), data)
+        self.rec.enabled = False
+        try:
+            if self.kind == "native":
+                with open(self.path(name), "wb") as f:
+                    f.write(data)
+            else:
+                self.fs.writebytes(self.path(name), data)
+        finally:
+            self.rec.enabled = True
 
     def snapshot(self):
-        return fsmon.snapshot_native(self.root) if self.kind == "native" else fsmon.snapshot_memory(self.fs, self.root)
+        self.rec.enabled = False
+        try:
+            return fsmon.snapshot_native(self.root) if self.kind == "native" else fsmon.snapshot_memory(self.fs, self.root)
+        finally:
+            self.rec.enabled = True
 
     def rel(self, path):
         return os.path.relpath(path, self.root) if self.kind == "native" else path
